@@ -72,8 +72,7 @@ pub fn deblock(cmd: &Value) -> Value {
         Ok(out) => {
             ev["ret"] = json!("ok");
             ev["out"] = json!(out);
-            ev["input_after"] = json!(data);
-            let _ = before;
+            ev["input_unchanged"] = json!(data == before);
         }
         Err(m) => ev["ret"] = json!(format!("panic:{}", m)),
     }
